@@ -15,7 +15,7 @@ print('modelrun:', rcc.build_model())
 print('harness:', rcc.build_harness('full', False))
 for fs, rel in (('nofin', False), ('noweak', False), ('noauto', False), ('full', True)):
     print('harness:', rcc.build_harness(fs, rel))
-for script in ('leafcheck.py', 'check_containers.py', 'check_derive.py', 'check_layout.py', 'check_forward.py', 'check_threads.py'):
+for script in ('leafcheck.py', 'check_containers.py', 'check_derive.py', 'check_layout.py', 'check_forward.py', 'check_threads.py', 'check_lists.py'):
     p = os.path.join(rcc.VERIF, 'tools', script)
     if os.path.exists(p):
         rc, out = rcc.sh([sys.executable, p, '--json', os.path.join(rcc.BUILD, 'setup-' + script + '.json')], check=False, timeout=3000, cwd=rcc.VERIF)
